@@ -83,7 +83,7 @@ void Encoder::putPacket(const Packet& packet)
         addNewDataHeader(packet, bytesToAdd, isSegmentedFlag);
 
         auto& cmpFrame = cmpFrames.back();
-        memcpy(&cmpFrame[cmpFrame.size() - bytesLeft], packet.getPayload().getRawPayload(), bytesToAdd);
+        memcpy(&cmpFrame[cmpFrame.size() - bytesLeft], packet.getPayload().getRawPayload() + currentPayloadPos, bytesToAdd);
         ++segmentInd;
         currentPayloadPos += bytesToAdd;
         bytesLeft -= bytesToAdd;
